@@ -7,6 +7,17 @@
 #include <stdint.h>
 #include <string.h>
 #include <new>
+#if defined(HFSM2_ENABLE_STRUCTURE_REPORT)
+#ifdef VERIF_NATIVE
+#include <typeindex>
+#else
+// the structure report takes state NAMES from typeid(); the lowering is built freestanding without RTTI, so the names
+// (never inspected by any obligation) are replaced by a constant string in these TUs (DESIGN 2.2 item 12)
+namespace std { struct type_index { const char* name() const { return "state"; } }; }
+static inline std::type_index verif_fake_typeid() { return std::type_index{}; }
+#define typeid(x) verif_fake_typeid()
+#endif
+#endif
 // contracts need the representation: access control is switched off for this TU only
 #define private public
 #define protected public
